@@ -228,6 +228,7 @@ class Built:
         self.repetition_registry = None
         self.links: Dict[Tuple[int, ...], Any] = {}       # path -> RelationLink object given to the constructor
         self.passed: Dict[Tuple[int, ...], Any] = {}      # path -> object handed to add()
+        self.rep_key: Optional[str] = None                # when set: every registry-provided count uses this one key
 
 
 def _classes():
@@ -258,16 +259,21 @@ def build(program, built: Optional[Built] = None) -> Built:
     from qce_circuit.structure.registry_repetition import (
         RepetitionRegistry, FixedRepetitionStrategy, RegistryRepetitionStrategy)
     b = built or Built()
-    b.duration_registry = DurationRegistry()
+    if b.duration_registry is None:
+        b.duration_registry = DurationRegistry()
     for k, v in sorted(program.get("dreg", {}).items()):
         b.duration_registry.set_registry_at(k, v)
-    b.repetition_registry = RepetitionRegistry()
+    if b.repetition_registry is None:
+        b.repetition_registry = RepetitionRegistry()
 
     def make_decl(circ, path):
         reps = circ.get("reps", 1)
         if circ.get("rmode") == "reg":
-            key = "r" + "_".join(map(str, path))
-            b.repetition_registry.set_registry_at(key, reps)
+            if b.rep_key is not None:
+                key = b.rep_key            # count governed by the caller's registry entry
+            else:
+                key = "r" + "_".join(map(str, path))
+                b.repetition_registry.set_registry_at(key, reps)
             return DeclarativeCircuit(repetition_strategy=RegistryRepetitionStrategy(b.repetition_registry, key))
         if reps != 1:
             return DeclarativeCircuit(repetition_strategy=FixedRepetitionStrategy(repetitions=reps))
